@@ -1,5 +1,6 @@
 from __future__ import annotations
 
+from copy import deepcopy
 from enum import Enum
 from typing import TYPE_CHECKING
 
@@ -266,7 +267,7 @@ class CondensedReactionGraph(MolGraph):
         product = MolGraph()
         for atom in self.atoms:
             if keep_attributes is True:
-                attrs = self._atom_attrs[atom]
+                attrs = deepcopy(self._atom_attrs[atom])
             else:
                 attrs = {"atom_type": self._atom_attrs[atom]["atom_type"]}
             product.add_atom(atom, **attrs)
@@ -274,7 +275,7 @@ class CondensedReactionGraph(MolGraph):
             bond_reaction = self._bond_attrs[bond].get("reaction", None)
             if bond_reaction is None or bond_reaction == Change.BROKEN:
                 if keep_attributes is True:
-                    attrs = self._bond_attrs[bond].copy()
+                    attrs = deepcopy(self._bond_attrs[bond])
                     attrs.pop("reaction", None)
                 else:
                     attrs = {}
@@ -294,7 +295,7 @@ class CondensedReactionGraph(MolGraph):
         product = MolGraph()
         for atom in self.atoms:
             if keep_attributes is True:
-                attrs = self._atom_attrs[atom]
+                attrs = deepcopy(self._atom_attrs[atom])
             else:
                 attrs = {"atom_type": self._atom_attrs[atom]["atom_type"]}
             product.add_atom(atom, **attrs)
@@ -302,7 +303,7 @@ class CondensedReactionGraph(MolGraph):
             bond_reaction = self._bond_attrs[bond].get("reaction", None)
             if bond_reaction is None or bond_reaction == Change.FORMED:
                 if keep_attributes is True:
-                    attrs = self._bond_attrs[bond].copy()
+                    attrs = deepcopy(self._bond_attrs[bond])
                     attrs.pop("reaction", None)
                 else:
                     attrs = {}
